@@ -273,7 +273,7 @@ func genCore(r *rand.Rand, maxOps int) (*coreCase, []string) {
 		b = append(b, "report-before-first")
 	}
 	if r.Intn(8) == 0 {
-		c.Ops = append(c.Ops, coreOp{K: "sr", Now: now, NTP: r.Uint64()})
+		c.Ops = append(c.Ops, coreOp{K: "sr", Now: now, NTP: srNTP(r)})
 		b = append(b, "sr-before-first")
 	}
 	repEvery := 2 + r.Intn(12)
@@ -307,7 +307,7 @@ func genCore(r *rand.Rand, maxOps int) (*coreCase, []string) {
 			now += int64(r.Intn(40000)) * 1000
 		}
 		if r.Intn(srEvery) == 0 {
-			c.Ops = append(c.Ops, coreOp{K: "sr", Now: now, NTP: r.Uint64()})
+			c.Ops = append(c.Ops, coreOp{K: "sr", Now: now, NTP: srNTP(r)})
 		}
 		if r.Intn(repEvery) == 0 {
 			c.Ops = append(c.Ops, coreOp{K: "rep", Now: now})
@@ -581,7 +581,7 @@ func genAPI(r *rand.Rand) (*apiCase, []string) {
 				ss = 4242 // an SSRC that is not bound
 				b = append(b, "sr-unknown-ssrc")
 			}
-			c.Ops = append(c.Ops, apiOp{K: "sr", SSRC: ss, Now: now, NTP: r.Uint64()})
+			c.Ops = append(c.Ops, apiOp{K: "sr", SSRC: ss, Now: now, NTP: srNTP(r)})
 		default:
 			v, t := s.v, s.ts
 			switch r.Intn(8) {
@@ -615,6 +615,19 @@ func genAPI(r *rand.Rand) (*apiCase, []string) {
 	b = append(b, fmt.Sprintf("streams-%d", ns))
 
 	return c, dedup(b)
+}
+
+// srNTP draws a sender-report NTP timestamp: mostly random, sometimes with the middle 32 bits
+// (the LSR field) all zero or all one - LSR 0 must not be confused with "no SR yet".
+func srNTP(r *rand.Rand) uint64 {
+	switch r.Intn(6) {
+	case 0:
+		return r.Uint64() & 0xFFFF00000000FFFF
+	case 1:
+		return r.Uint64() | 0x0000FFFFFFFF0000
+	default:
+		return r.Uint64()
+	}
 }
 
 func main() {
